@@ -106,7 +106,7 @@ func (reproSuite) Gen(r *Rng, i int, tier string) any {
 	v3 := base
 	v3.Name, v3.GOMAXPROCS, v3.TZ, v3.Umask = "par2", 2, "America/St_Johns", 0o002
 	c.Variants = append(c.Variants, v3)
-	if http && len(c.Img.Archs) >= 2 {
+	if http && len(c.Img.Archs) >= 2 && len(c.Mirrors) == 0 { // (several repositories get the slow-repository variants instead: the per-case watchdog is 20 s)
 		va, vb := base, base
 		va.Name, va.SlowArch, va.GOMAXPROCS = "slow-first-arch", c.Img.Archs[0], 4
 		vb.Name, vb.SlowArch, vb.GOMAXPROCS = "slow-last-arch", c.Img.Archs[len(c.Img.Archs)-1], 4
